@@ -53,7 +53,7 @@ st('htp_connp_REQ_CONNECT_WAIT_RESPONSE', ['C16', 'C09', 'C01'], C16S + 'nothing
 st('htp_connp_REQ_CONNECT_PROBE_DATA', ['C16', 'C09', 'C01'], C16S + 'pending bytes are never discarded; known method => normal completion, else both directions TUNNEL; DATA_BUFFER leaves everything untouched',
    replace=['htp_connp_req_consolidate_data', 'bstr_dup_mem/contract_site_bstr_dup_mem', 'htp_convert_method_to_number',
             'htp_tx_state_request_complete/contract_stub_htp_tx_state_request_complete'],
-   link=['htp_util.c', 'bstr.c'],
+   link=['htp_util.c', 'bstr.c'], solver='--sat-solver cadical',
    loops={'count': 3,
           0: dict(assigns='connp->in_next_byte, connp->in_current_read_offset, connp->in_stream_offset',
                   inv=['connp->in_current_read_offset >= __CPROVER_loop_entry(connp->in_current_read_offset)', 'connp->in_current_read_offset <= connp->in_current_len',
